@@ -248,10 +248,15 @@ def make_inst(rng, names, nr, rows, key_ids):
     return {'reactants': names[:nr], 'products': names[nr:], 'substances': subs}
 
 
-def gen_planted(rng, tier, want_nullity=1, names=None, nr=None):
-    """instance with a planted positive coprime solution and null space of the wanted dimension"""
+LARGE_POOL = ['S%02d' % i for i in range(20)]      # names for the 11-16 species instances (also recurring)
+
+
+def gen_planted(rng, tier, want_nullity=1, names=None, nr=None, large=False):
+    """instance with a planted positive coprime solution and null space of the wanted dimension;
+    large: 11-16 species, 10+ composition keys (two-digit column indices, more keys than a textbook reaction)"""
     for _ in range(400):
-        n = len(names) if names else rng.randint(max(2, want_nullity + 1), 5 if tier == 'quick' else 6)
+        n = len(names) if names else (rng.randint(11, 16) if large else
+                                      rng.randint(max(2, want_nullity + 1), 5 if tier == 'quick' else 6))
         nr = nr if names else rng.randint(1, n - 1)
         x = coprime_pos(rng, n, rng.choice([2, 3, 4, 6]))
         frac = rng.random() < 0.25
@@ -265,7 +270,7 @@ def gen_planted(rng, tier, want_nullity=1, names=None, nr=None):
             continue
         if any(all(r[j] == 0 for r in rows) for j in range(n)):
             continue
-        names = list(names) if names else rng.sample(NAME_POOL, n)
+        names = list(names) if names else rng.sample(LARGE_POOL if large else NAME_POOL, n)
         key_ids = ([0] if charge else []) + rng.sample(range(1, 40), len(rows))
         inst = make_inst(rng, names, nr, rows, key_ids[:len(rows)])
         return inst, x
